@@ -439,7 +439,13 @@ func BatchFunc[T any](
 				out.err = err
 				return
 			}
-			c <- item
+			select {
+			case c <- item:
+			case <-bgCtx.Done():
+				// The batcher may already have exited because of Close, in which case nobody is
+				// receiving from c anymore.
+				return
+			}
 		}
 	}()
 
